@@ -10,7 +10,8 @@
 (* every case and, with Emit = TRUE, prints every case (negate = FALSE     *)
 (* representative; the harness executes both settings on the real code).   *)
 EXTENDS Masking, TLC, Json
-CONSTANTS MaxH, MaxW, MaxRows, FullBlanks, Emit, DoImages, DoTables
+CONSTANTS MaxH, MaxW, MaxRows, FullBlanks, Emit, DoImages, DoTables,
+          Origin    \* pixel-origin convention of the coded design (see below)
 
 VARIABLES kind, H, W, P, pat, bl, negate, cube, out, rows, tout, pc
 vars == <<kind, H, W, P, pat, bl, negate, cube, out, rows, tout, pc>>
@@ -150,6 +151,20 @@ ThmTrivialRegions ==
                /\ ((\A x \in PX : ~InP[x]) /\ negate) => out = cube
                /\ ((\A x \in PX : InP[x]) /\ negate) => \A p \in 1..P : \A x \in PX : IsBlank(out[p][x])
                /\ ((\A x \in PX : ~InP[x]) /\ ~negate) => \A p \in 1..P : \A x \in PX : IsBlank(out[p][x])
+
+\* The coded design of MIMAS.mask_plane: the 0-based array index <<row, col>>
+\* is handed to the WCS as pixel coordinate (col, row) under origin convention
+\* `Origin`.  Under convention o the coordinate j denotes the centre of array
+\* index j - o, so the membership looked up for pixel x is that of x - <<o, o>>
+\* (the patterns are formulas, hence defined off the grid as well).
+\* Origin = 0 is the property's convention; Origin = 1 (as coded before the
+\* fix) shifts the mask by one pixel in both axes - TLC shows the counterexample.
+CodedIn(p, x) == InOf(p, <<x[1] - Origin, x[2] - Origin>>)
+CodedMaskImage(img, p, neg) ==
+    [x \in DOMAIN img |->
+        IF IsBlank(img[x]) \/ Blanked(CodedIn(p, x), neg) THEN Blank ELSE img[x]]
+ThmCodedDesign ==
+    DoneImg => \A p \in 1..P : CodedMaskImage(cube[p], pat, negate) = out[p]
 
 ThmTable ==
     DoneTab =>
